@@ -3,6 +3,7 @@ package checks
 import (
 	"crypto/tls"
 	"fmt"
+	"os"
 	"sort"
 	"strings"
 	"sync"
@@ -183,7 +184,14 @@ func (cl *cluster) lifecycle(ops ...string) {
 			case "Restart":
 				err = cl.Srv.Restart()
 			}
-			cl.S.Logf("life", "%s returned %v", op.Name, err)
+			// joined errors list their parts in Go map order: the log keeps them sorted
+			etxt := "<nil>"
+			if err != nil {
+				parts := strings.Split(err.Error(), "\n")
+				sort.Strings(parts)
+				etxt = strings.Join(parts, " | ")
+			}
+			cl.S.Logf("life", "%s returned %s", op.Name, etxt)
 			cl.lifeErr = append(cl.lifeErr, err)
 			cl.lifeDone++
 		}
@@ -482,6 +490,8 @@ func (cl *cluster) actions() []sim.Action {
 	return acts
 }
 
+var debugActs = os.Getenv("VERIF_DEBUG_ACTS") == "1"
+
 func actor(key string) string {
 	if i := strings.IndexByte(key, ' '); i >= 0 {
 		if strings.HasPrefix(key, "run ") {
@@ -509,6 +519,17 @@ func (cl *cluster) choose(acts []sim.Action) {
 		}
 	}
 	i := cl.T.Draw(len(acts), "ev")
+	if debugActs {
+		var ks []string
+		for _, a := range acts {
+			ks = append(ks, a.Key)
+		}
+		var ps []string
+		for _, t := range cl.S.Parked() {
+			ps = append(ps, fmt.Sprintf("%s@%s held=%t", t.Name, t.Where, t.Held))
+		}
+		cl.S.Logf("sched", "DEBUG acts=%v parked=%v", ks, ps)
+	}
 	cl.lastKey = actor(acts[i].Key)
 	cl.S.Logf("sched", "%s", acts[i].Key)
 	cl.seq++
